@@ -44,7 +44,9 @@ def fitted_hourly(tz="America/Chicago", year=2016, with_ghi=False):
 
 def reporting(tz, start, end, transform=None, with_ghi=False):
     import opendsm.eemeter as em
-    df = hourly_frame(tz, with_ghi).loc[start:end]
+    df = hourly_frame(tz, with_ghi)
+    # whole local days by DATE (a date-string slice fails where the end of the day is an ambiguous wall-clock time)
+    df = df[(df.index.date >= pd.Timestamp(start).date()) & (df.index.date <= pd.Timestamp(end).date())]
     if transform is not None:
         df = transform(df.copy())
     return em.HourlyReportingData(df, is_electricity_data=True)
